@@ -22,7 +22,6 @@ import (
 	"go/ast"
 	"go/token"
 	"go/types"
-	"os"
 	"sort"
 	"strings"
 )
@@ -30,50 +29,47 @@ import (
 const trAccountPath = trKnutPath + "lib/model/account"
 
 func init() {
+	// functions added to units of trans_units.go; their agreement theorems live in Knut.FactsAgree.Trans<mod>
 	for _, u := range trUnits {
-		if u.pkg == "lib/model/account" {
+		add := func(mod string, fs ...string) {
 			if u.agree == nil {
 				u.agree = map[string]string{}
 			}
-			for _, f := range []string{"Rule.Match", "Mapping.Level", "Shorten", "Remap"} {
+			for _, f := range fs {
 				u.funcs = append(u.funcs, f)
-				u.agree[f] = "Mapping"
+				u.agree[f] = mod
 			}
+		}
+		switch u.pkg {
+		case "lib/model/account":
+			add("Mapping", "Rule.Match", "Mapping.Level", "Shorten", "Remap")
+			add("SwapType", "Type.String", "Registry.SwapType") // SwapType: the fragment `name` only
+		case "lib/common/mapper":
+			add("BalanceCmd", "Sequence", "Nil", "IdentityIf")
+		case "lib/common/predicate":
+			add("BalanceCmd", "And", "ByName")
+		case "lib/model/commodity":
+			add("BalanceCmd", "IdentityIf")
+		case "lib/amounts":
+			add("BalanceCmd", "CommodityMatches", "AccountMatches")
 		}
 	}
-	if os.Getenv("TRANS10_DEV") != "" { // under development
-		for _, u := range trUnits {
-			add := func(mod string, fs ...string) {
-				if u.agree == nil {
-					u.agree = map[string]string{}
-				}
-				for _, f := range fs {
-					u.funcs = append(u.funcs, f)
-					u.agree[f] = mod
-				}
-			}
-			switch u.pkg {
-			case "lib/common/mapper":
-				add("BalanceCmd", "Sequence", "Nil", "IdentityIf")
-			case "lib/common/predicate":
-				add("BalanceCmd", "And", "ByName")
-			case "lib/model/commodity":
-				add("BalanceCmd", "IdentityIf")
-			case "lib/amounts":
-				add("BalanceCmd", "CommodityMatches", "AccountMatches")
-			}
-		}
-		trUnits = append(trUnits, &trUnit{pkg: "cmd/commands", mod: "Commands", funcs: []string{"balanceRunner.execute"},
-			agree: map[string]string{"balanceRunner.execute": "BalanceCmd"}})
-		trFragSpecs["("+trKnutPath+"cmd/commands.balanceRunner).execute"] = []*trFragSpec{
-			{name: "query", kind: "expr", typ: trKnutPath + "lib/journal.Query"},
-		}
+	// cmd/commands: only the fragment `query` of balanceRunner.execute
+	trUnits = append(trUnits, &trUnit{pkg: "cmd/commands", mod: "Commands", funcs: []string{"balanceRunner.execute"},
+		agree: map[string]string{"balanceRunner.execute": "BalanceCmd"}})
+	trFragSpecs["(*"+trAccountPath+".Registry).SwapType"] = []*trFragSpec{
+		{name: "name", kind: "stmts", from: "n", until: "sw, err := as.Get(n)"},
+	}
+	trFragSpecs["("+trKnutPath+"cmd/commands.balanceRunner).execute"] = []*trFragSpec{
+		{name: "query", kind: "expr", typ: trKnutPath + "lib/journal.Query"},
 	}
 	trUnits = append(trUnits,
 		&trUnit{pkg: "lib/common/regex", mod: "Regex", funcs: []string{"Regexes.MatchString"}, agree: map[string]string{"Regexes.MatchString": "Mapping"}},
 	)
 	trStubEnsure("regexp", "type Regexp struct", "type Regexp struct{ _ int }")
 	trStubEnsure("regexp", "func (re *Regexp) MatchString(", "func (re *Regexp) MatchString(s string) bool")
+	trStubEnsure("strings", "func TrimPrefix(", "func TrimPrefix(s, prefix string) string")
+	trPrims["strings.TrimPrefix"] = trPrim{lean: "Strings.TrimPrefix"}
 	trOpaque["*regexp.Regexp"] = "Regexp.Ptr"
 	trPrims["(*regexp.Regexp).MatchString"] = trPrim{lean: "Regexp.MatchString", effect: true}
 	trDropped[trAccountPath+".Registry"] = true
@@ -101,10 +97,14 @@ func trIsRegexpPtr(ty types.Type) bool {
 
 // trMappingImports: prelude modules a generated unit needs for the constructs of this file
 func trMappingImports(body string) []string {
+	var res []string
 	if strings.Contains(body, "Regexp.Ptr") || strings.Contains(body, "Regexp.MatchString") {
-		return []string{"import Knut.GoSem.RegexpMatch"}
+		res = append(res, "import Knut.GoSem.RegexpMatch")
 	}
-	return nil
+	if strings.Contains(body, "Strings.TrimPrefix") {
+		res = append(res, "import Knut.GoSem.Mapping")
+	}
+	return res
 }
 
 // regexpNilCompare: `re == nil` / `re != nil` for a *regexp.Regexp
